@@ -1,5 +1,5 @@
 #!/bin/bash
-# tools/mutrun.sh <name> <driver> [driver args...]   (reads a patch on stdin, or "REVERT <commit>" as first line)
+# tools/mutrun.sh <name> <driver> [driver args...]   (reads a patch on stdin, or "REVERT <commit>" / "NONE" as first line)
 # Builds <driver> against a scratch worktree of /repo with the patch applied and runs it,
 # writing cases to /verif/.work/mut/<name>.jsonl. Does not touch /repo's working tree.
 set -e
@@ -12,7 +12,9 @@ git -C /repo worktree add -q --detach "$WT" HEAD
 cp /repo/plugin/executable/cache/zz_verif_export_c*.go "$WT/plugin/executable/cache/" 2>/dev/null || true
 for f in $(git -C /repo ls-files --others --exclude-standard); do mkdir -p "$WT/$(dirname $f)"; cp "/repo/$f" "$WT/$f"; done
 patch=$(cat)
-if [[ "$patch" == REVERT* ]]; then
+if [[ "$patch" == NONE* ]]; then
+  : # the unchanged HEAD (a clean reference run that does not depend on /repo's working tree)
+elif [[ "$patch" == REVERT* ]]; then
   c=$(echo "$patch" | awk '{print $2}')
   git -C "$WT" show "$c" | git -C "$WT" apply -R
 else
